@@ -428,16 +428,41 @@ func c01Placeholder(c *Ctx, ro *ParserRoles) {
 	}
 	sites := c.placeholderSites(ro)
 	per := map[string]int{}
+	// covered: every path through f that passes instruction s also passes a diagnostic; when f itself
+	// records none (a helper that only builds the placeholder), every call site of f has to be covered
+	var covered func(s ssa.Instruction, depth int) (bool, string)
+	covered = func(s ssa.Instruction, depth int) (bool, string) {
+		f := s.Parent()
+		before := pathExists(f, nil, func(x ssa.Instruction) bool { return x == s }, isDiag, nil)
+		afterFree := pathExists(f, s, isReturn, isDiag, nil)
+		if !(before && afterFree) {
+			return true, ""
+		}
+		if depth >= 3 {
+			return false, c.P.FuncKey(f)
+		}
+		n := 0
+		for _, g := range ro.Reach.Order {
+			for _, cs := range callsTo(g, f) {
+				n++
+				if ok, where := covered(cs, depth+1); !ok {
+					return false, where
+				}
+			}
+		}
+		if n == 0 {
+			return false, c.P.FuncKey(f) + " (no call sites)"
+		}
+		return true, ""
+	}
 	for _, s := range sites {
 		f := s.Parent()
 		per[c.P.FuncKey(f)]++
 		cons := fmt.Sprintf("%s: placeholder#%d", c.P.FuncKey(f), per[c.P.FuncKey(f)])
-		// every path entry -> site -> return passes a diagnostic: i.e. no diag-free path entry->site AND site->return
-		before := pathExists(f, nil, func(x ssa.Instruction) bool { return x == s }, isDiag, nil)
-		afterFree := pathExists(f, s, isReturn, isDiag, nil)
-		c.R.Check(rule, cons, c.P.InstrPos(s), !(before && afterFree), "a zero-width placeholder node is created here on a path that records no diagnostic: the tree would contain an empty name / missing token without the parse failing")
+		ok, where := covered(s, 0)
+		c.R.Check(rule, cons, c.P.InstrPos(s), ok, "a zero-width placeholder node is created here on a path that records no diagnostic (neither here nor in the caller "+where+"): the tree would contain an empty name / missing token without the parse failing")
 	}
-	c.R.Floor(rule, 3)
+	c.R.Floor(rule, 1)
 }
 
 func c01Speculation(c *Ctx, ro *ParserRoles) {
@@ -541,7 +566,7 @@ func c01Fields(c *Ctx, ro *ParserRoles) {
 	}
 	c.R.Analysed["node_types_allocated_by_parser"] = sortedKeys(types_)
 	c.R.Check(rule, "all-node-types-allocated", "-", len(types_) >= 11, fmt.Sprintf("only %d node types are allocated by the parser (expected the ten expression nodes and the token node)", len(types_)))
-	c.R.Floor(rule, 20)
+	c.R.Floor(rule, 10)
 }
 
 // consumerBetween: some may-consumer call can execute strictly between a and b (on a path from a to b
@@ -705,6 +730,10 @@ func (c *Ctx) neverNil(f *ssa.Function, idx int, assume map[nnKey]bool, ro *Pars
 }
 
 func (c *Ctx) valueNeverNil(v ssa.Value, use ssa.Instruction, assume map[nnKey]bool, ro *ParserRoles, depth int) (bool, string) {
+	// the value itself (e.g. a loop variable) was tested against nil and the use sits on the non-nil edge
+	if nonNilAt(stripIface(v), use) {
+		return true, ""
+	}
 	for _, rt := range c.nodeOrigins().Roots(v) {
 		switch {
 		case rt.Kind == "alloc" && len(rt.Path) == 0:
@@ -870,23 +899,8 @@ func c01NeverNil(c *Ctx, ro *ParserRoles) {
 			for _, cs := range callsTo(g, ro.ArgList) {
 				nSites++
 				guarded := false
-				for b := cs.Block(); b != nil; b = b.Idom() {
-					for _, p := range b.Preds {
-						iff, ok := p.Instrs[len(p.Instrs)-1].(*ssa.If)
-						if !ok || p.Succs[0] != b {
-							continue
-						}
-						bo, ok := iff.Cond.(*ssa.BinOp)
-						if !ok || bo.Op != token.EQL {
-							continue
-						}
-						if k, ok := constIntArg(bo.Y); ok && k == oparen && c.isTokenRead(bo.X) {
-							tr := bo.X.(ssa.Instruction)
-							if !c.consumerBetween(g, tr, cs) && len(b.Preds) == 1 {
-								guarded = true
-							}
-						}
-					}
+				if k, tr, ok := c.tokenGuardOf(cs); ok && k == oparen && !c.consumerBetween(g, tr, cs) {
+					guarded = true
 				}
 				c.R.Check(rule, "exception:argument-list-call-site", c.P.InstrPos(cs), guarded, "the argument-list parser returns nil when its `(` is missing; its call site must therefore be entered only on the true edge of `token() == SK_OpenParen`, with no token consumed in between")
 			}
@@ -894,7 +908,7 @@ func c01NeverNil(c *Ctx, ro *ParserRoles) {
 		_ = nSites
 	}
 	c.R.Analysed["operand_stores_checked"] = n
-	c.R.Floor(rule, 18)
+	c.R.Floor(rule, 9)
 }
 
 // ---------- scanner diagnostics binding ----------
@@ -1112,7 +1126,7 @@ func c01LoopProgress(c *Ctx, entry *ssa.Function) {
 		}
 	}
 	c.R.Analysed["progress_loops_checked"] = n
-	c.R.Floor(rule, 11)
+	c.R.Floor(rule, 6)
 }
 
 // localAdvanceLoop: on every back edge some header phi (an int position) receives phi + positive.
@@ -1314,15 +1328,25 @@ func (c *Ctx) tokenGuardOf(call *ssa.Call) (int64, ssa.Instruction, bool) {
 		}
 		p := b.Preds[0]
 		iff, ok := p.Instrs[len(p.Instrs)-1].(*ssa.If)
-		if !ok || p.Succs[0] != b {
+		if !ok {
 			continue
 		}
 		bo, ok := iff.Cond.(*ssa.BinOp)
-		if !ok || bo.Op != token.EQL {
+		if !ok || (bo.Op != token.EQL && bo.Op != token.NEQ) {
+			continue
+		}
+		eq := 0
+		if bo.Op == token.NEQ {
+			eq = 1
+		}
+		if p.Succs[eq] != b {
 			continue
 		}
 		if k, ok := constIntArg(bo.Y); ok && c.isTokenRead(bo.X) {
 			return k, bo.X.(ssa.Instruction), true
+		}
+		if k, ok := constIntArg(bo.X); ok && c.isTokenRead(bo.Y) {
+			return k, bo.Y.(ssa.Instruction), true
 		}
 	}
 	return 0, nil, false
@@ -1444,7 +1468,7 @@ func c01ParserProgress(c *Ctx, ro *ParserRoles) {
 			c.R.Check(rule, cons, c.P.InstrPos(l.Header.Instrs[0]), !stuck, "there is a cycle through this parser loop that consumes no token ("+blockPath(path)+"): the parser can hang")
 		}
 	}
-	c.R.Floor(rule, 5)
+	c.R.Floor(rule, 3)
 	// start-implies-consume: every token accepted as the start of a list element is consumed by the element parser
 	const r2 = "C01.start-implies-consume"
 	if elemPred == nil {
